@@ -57,3 +57,26 @@ Proof.
   - intros kv t [<- | [<- | []]] E; simpl in E; [injection E as <-; reflexivity | discriminate].
   - eexists. split; vm_compute; reflexivity.
 Qed.
+
+(* What touch() writes is read back by any peer with the SAME lifetime and deadline (the round trip Peer of as_dict of p):
+   the record written at [now] by an operator with lifetime > 0, in its JSON form, parses — at any later instant
+   [now'] — to a Peer of that priority and lifetime whose deadline is now + lifetime (whole seconds, days included) *)
+Theorem written_record_reads_back : forall oint odate fmt c now now' id,
+  0 < c_life c -> odate (fmt now) = Some now ->
+  rec_in_range now' (mkRec (c_prio c) (c_life c) (Some now)) = true ->
+  exists r, touch_record c None now = Some (c_prio c, c_life c, now) /\ r = mkRec (c_prio c) (c_life c) (Some now) /\
+    exists p, mk_peer oint odate now' id (enc_rec fmt r) = POk p /\
+      p_prio p = JNum (c_prio c) /\ p_life p = c_life c /\ p_seen p = now /\
+      p_deadline p = now + c_life c * 1000 /\ p_dead p = (now + c_life c * 1000 <=? now').
+Proof.
+  intros oint odate fmt c now now' id L PB R. eexists. split; [now apply touch_live|]. split; [reflexivity|].
+  eexists. split.
+  - apply mk_peer_enc; [exact R|]. intros t E. simpl in E. injection E as <-. exact PB.
+  - unfold apeer. simpl. repeat split.
+Qed.
+
+Example written_record_day_long :
+  rec_in_range 100000 (mkRec 7 90000 (Some 5000)) = true /\ ex_odate (ex_fmt 5000) = Some 5000 /\
+  exists p, mk_peer (fun _ => None) ex_odate 100000 "x" (enc_rec ex_fmt (mkRec 7 90000 (Some 5000))) = POk p /\
+            p_deadline p = 5000 + 90000 * 1000 /\ p_dead p = false.
+Proof. split; [vm_compute; reflexivity|]. split; [reflexivity|]. eexists. split; [vm_compute; reflexivity|]. split; reflexivity. Qed.
